@@ -22,7 +22,9 @@ import c01
 
 PID = "G03"
 MODEL_CFGS = [("rrtstar", None), ("bidir", None), ("lazy", None), ("wall", None),
-              ("fault_extend", "Inv"), ("fault_rewire", "Inv"), ("fault_report", "Inv")]
+              ("fault_extend", "Inv"), ("fault_rewire", "Inv"), ("fault_report", "Inv"),
+              # the clause as first written (path along exported edges, for EVERY planner) does not survive rewiring
+              ("pathedges", "PathEdgesUnconditional")]
 CURVE_SPACES = ("RS", "DUBINS")   # non-unique / direction-dependent curves: edge re-validation is not meaningful there
 
 
